@@ -904,11 +904,13 @@ class Check:
         self.obligations.append(dict(rule=rule, site=self._site(where), construct=c, verdict="holds",
                                      detail=detail, line=self._line(construct) if isinstance(construct, ast.AST) else None))
 
-    def violation(self, rule, where, construct, detail, sink=None):
+    def violation(self, rule, where, construct, detail, sink=None, positive=False):
+        """positive=True: the finding is a construct that *is there* (a forbidden writer, a mutation of the wrong kind) - helpers that
+        could not be spliced in can hide constructs from a rule, they cannot make one appear, so such a finding stands"""
         c = src(construct) if isinstance(construct, ast.AST) else str(construct)
         qual = where.qual if hasattr(where, "qual") else (where.name if hasattr(where, "name") else str(where))
         left = getattr(self.repo, "residual", {}).get(qual)
-        if left:
+        if left and not positive:
             # the function was restructured through helpers the normaliser could not splice in: what the rule sees is incomplete,
             # so "construct missing / different" is not evidence of a violation (not recognised != wrong, DESIGN section 1)
             self.error(rule, f"{qual} now delegates to {', '.join(left)}, which could not be inlined (generator / recursion / closure / "
